@@ -219,6 +219,47 @@ pub fn out_dir() -> PathBuf {
 
 // --------------------------------------------------------------- the worker
 
+/// Recorded cases (`regress/<ID>/*.json`, replay-file format): minimised schedules of the defects
+/// repaired so far and of deliberately broken trees. Every batch executes them after the generated
+/// runs, so that the return of a repaired defect does not depend on the sampler finding it again.
+pub const PINNED_BASE: u64 = 1 << 40;
+
+pub fn load_pinned(def: &PropertyDef) -> Vec<Case> {
+    let dir = verif_dir().join("regress").join(def.id);
+    let mut names: Vec<PathBuf> = match std::fs::read_dir(&dir) {
+        Ok(rd) => rd.flatten().map(|e| e.path()).filter(|p| p.extension().map(|x| x == "json").unwrap_or(false)).collect(),
+        Err(_) => return Vec::new(),
+    };
+    names.sort();
+    let mut out = Vec::new();
+    for (j, p) in names.iter().enumerate() {
+        let rf: ReplayFile = match std::fs::read(p).ok().and_then(|b| serde_json::from_slice(&b).ok()) {
+            Some(rf) => rf,
+            None => {
+                eprintln!("harness error: recorded case {} does not parse", p.display());
+                std::process::exit(2);
+            }
+        };
+        let mut case = rf.case;
+        if case.prop != def.id || !case.program.reanalyze() {
+            eprintln!("harness error: recorded case {} is not a {} case with a parsable program", p.display(), def.id);
+            std::process::exit(2);
+        }
+        case.run = PINNED_BASE + j as u64;
+        out.push(case);
+    }
+    out
+}
+
+/// The case of a run index: generated from the seed, or a recorded one.
+pub fn case_for_run(def: &'static PropertyDef, corpus: &Corpus, pinned: &[Case], tier: Tier, seed: u64, run: u64) -> Option<Case> {
+    if run >= PINNED_BASE {
+        return pinned.get((run - PINNED_BASE) as usize).cloned();
+    }
+    let mut rng = Rng::new(mix(seed, def.id, run));
+    (def.generate)(corpus, tier, run, &mut rng)
+}
+
 #[derive(Serialize, Deserialize, Default)]
 pub struct WorkerOut {
     pub stats: Stats,
@@ -241,20 +282,23 @@ pub fn worker_main(def: &'static PropertyDef, tier: Tier, seed: u64, workers: u6
     let deadline = std::env::var("VERIF_WORKER_DEADLINE_S").ok().and_then(|s| s.parse::<u64>().ok());
     let t0 = Instant::now();
     let rdigest = std::env::var("VERIF_RDIGEST").is_ok();
-    let mut run = index.max(start);
+    let pinned = load_pinned(def);
+    // this worker's share: every `workers`-th generated run, then every `workers`-th pinned case
+    let mut mine: Vec<u64> = (0..total).filter(|r| r % workers == index).collect();
+    mine.extend((0..pinned.len() as u64).filter(|j| j % workers == index).map(|j| PINNED_BASE + j));
+    mine.retain(|r| *r >= start);
+    if let Some(o) = only_run {
+        mine = vec![o];
+    }
     let mut seen_sigs: BTreeMap<String, u32> = BTreeMap::new();
-    while run < total {
-        if let Some(o) = only_run {
-            run = o;
-        }
+    for run in mine {
         if let Some(d) = deadline
             && t0.elapsed().as_secs() > d
         {
             wo.stats.inc("stopped_by_deadline");
             break;
         }
-        let mut rng = Rng::new(mix(seed, def.id, run));
-        let case = (def.generate)(&corpus, tier, run, &mut rng);
+        let case = case_for_run(def, &corpus, &pinned, tier, seed, run);
         if let Some(case) = case {
             let _ = std::fs::write(&cur, format!("{run}"));
             let r = exec_on_thread(def, &case);
@@ -267,14 +311,24 @@ pub fn worker_main(def: &'static PropertyDef, tier: Tier, seed: u64, workers: u6
                 c.stats.samples.clear();
                 wo.rdigests.push((run, fnv(&serde_json::to_string(&c).unwrap_or_default())));
             }
-            wo.stats.inc("evaluations");
-            wo.stats.inc(&format!("programs.{}", case.program.kind));
-            if let Some(d) = &r.discard {
+            if run >= PINNED_BASE {
+                // a recorded case (regress/<ID>/): checked like any other, counted apart
+                wo.stats.inc("pinned_cases");
+                if r.discard.is_some() {
+                    wo.stats.inc("pinned_cases_discarded");
+                }
+            } else {
+                wo.stats.inc("evaluations");
+                wo.stats.inc(&format!("programs.{}", case.program.kind));
+            }
+            if run >= PINNED_BASE {
+                // not part of the sampled population
+            } else if let Some(d) = &r.discard {
                 wo.stats.inc(&format!("discarded.{d}"));
             } else if r.nontrivial {
                 wo.stats.mark("nontrivial", r.fingerprint);
             }
-            if wo.stats.samples.len() < 3 && r.nontrivial && r.discard.is_none() {
+            if run < PINNED_BASE && wo.stats.samples.len() < 3 && r.nontrivial && r.discard.is_none() {
                 wo.stats.samples.push(sample_of(&case));
             }
             wo.stats.merge(r.stats);
@@ -289,7 +343,7 @@ pub fn worker_main(def: &'static PropertyDef, tier: Tier, seed: u64, workers: u6
             if timed_out {
                 // the runaway thread cannot be stopped: hand over to a fresh process
                 wo.stats.inc("watchdog_restarts");
-                wo.resume = Some(run + workers);
+                wo.resume = Some(run + 1);
                 wo.done += 1;
                 std::fs::write(out, serde_json::to_vec(&wo).unwrap()).unwrap();
                 let _ = std::fs::remove_file(&cur);
@@ -299,10 +353,6 @@ pub fn worker_main(def: &'static PropertyDef, tier: Tier, seed: u64, workers: u6
             wo.stats.inc("skipped_no_case");
         }
         wo.done += 1;
-        if only_run.is_some() {
-            break;
-        }
-        run += workers;
     }
     let _ = std::fs::remove_file(&cur);
     std::fs::write(out, serde_json::to_vec(&wo).unwrap()).unwrap();
@@ -413,13 +463,12 @@ pub fn run_batch(def: &'static PropertyDef, tier: Tier, seed: u64, workers: u64)
             match run {
                 Some(run) => {
                     let corpus = Corpus::load();
-                    let mut rng = Rng::new(mix(seed, def.id, run));
-                    if let Some(case) = (def.generate)(&corpus, tier, run, &mut rng) {
+                    if let Some(case) = case_for_run(def, &corpus, &load_pinned(def), tier, seed, run) {
                         let v = Violation::new(def.id, "abort", "process", &format!("worker died ({st}) while executing a case"));
                         failures.push((case, v));
                     }
                     // the runs this worker had not reached yet are still owed
-                    children.push(spawn(k, run + workers));
+                    children.push(spawn(k, run + 1));
                 }
                 None => {
                     eprintln!("harness error: worker {k} died ({st}) outside a case");
@@ -872,8 +921,7 @@ fn run_sub_build(def: &'static PropertyDef, tier: Tier, seed: u64, workers: u64,
                                 differ += 1;
                                 if extra_failures.len() < 4 {
                                     let corpus = Corpus::load();
-                                    let mut rng = Rng::new(mix(seed, def.id, run));
-                                    if let Some(case) = (def.generate)(&corpus, tier, run, &mut rng) {
+                                    if let Some(case) = case_for_run(def, &corpus, &load_pinned(def), tier, seed, run) {
                                         let v = Violation::new(def.id, "profile-divergence", build, "event log digest differs between builds")
                                             .with(format!("run {run}"), format!("{:016x} ({})", ours, build_name()), format!("{:016x} ({build})", theirs));
                                         extra_failures.push((case, v));
